@@ -1,15 +1,92 @@
 (* C03 -- a process vanishing or being denied mid-call yields only psutil errors.
-   Statements only; proofs live in C03/Proofs*.v.  Model: C03/Model.v (access scripts transcribing
-   psutil/_pslinux.py and psutil/__init__.py), fault model and allowed outcomes: C03/Spec.v,
-   guard analysis: C03/Guard.v. *)
-From PV Require Import Base.Prelude C03.Model C03.Spec C03.Guard C03.Proofs.
+   Statements only; proofs live in C03/Proofs.v and C03/Table.v.  Model: C03/Model.v (access scripts
+   transcribing psutil/_pslinux.py and psutil/__init__.py), fault model and allowed outcomes:
+   C03/Spec.v, guard analysis: C03/Guard.v, the harness's concrete worlds: C03/Run.v. *)
+From PV Require Import Base.Prelude C03.Model C03.Spec C03.Guard C03.Proofs C03.Run C03.Table.
 
 (* soundness of the guard for ALL worlds of the fault model: any base answers respecting [opt], any
-   vanish index, any set of refused accesses (single faults and every two-fault sequence included),
-   any listing sizes: a guarded script returns a value or raises NoSuchProcess -- and then the process
-   is gone --, ZombieProcess or AccessDenied, with the object's own pid; nothing else escapes *)
-Theorem C03_well_guarded_sound : forall (w : world) (opt : label -> bool),
+   vanish index, any SET of refused accesses (single faults and every two-fault sequence included),
+   any listing sizes and contents: a guarded script returns a value or raises NoSuchProcess -- and then
+   the process is gone --, ZombieProcess or AccessDenied, with the object's own pid; nothing else escapes *)
+Theorem C03_well_guarded_sound : forall (w : world) (opt : label -> oclass),
   base_ok opt w -> forall p : prog, well_guarded opt p = true ->
   forall s, s_cache s = false -> allowed (fst (run w p s)) (gone w (snd (run w p s))).
 Proof. exact well_guarded_sound_w. Qed.
 Print Assumptions C03_well_guarded_sound.
+
+(* the analysis itself is sound: whatever a script does in a world of the fault model is among its abstract results *)
+Theorem C03_analysis_sound : forall (w : world) (opt : label -> oclass), base_ok opt w ->
+  forall p cx s sg s', exec w p cx s = (sg, s') -> In (abs_sig sg, alpha w s') (an opt p cx (alpha w s)).
+Proof. exact an_sound. Qed.
+Print Assumptions C03_analysis_sound.
+
+(* every single-process Linux query (and as_dict() over all of them) in a world where descriptors, threads
+   and smaps_rollup may disappear under a live process *)
+Theorem C03_live_methods_sound : forall w, base_ok opt_race w ->
+  forall p, In p (as_dict_all :: linux_scripts) ->
+  forall s, s_cache s = false -> allowed (fst (run w p s)) (gone w (snd (run w p s))).
+Proof. exact live_methods_sound. Qed.
+Print Assumptions C03_live_methods_sound.
+
+(* kernel thread (exe link reports ENOENT): every query except exe() *)
+Theorem C03_kthread_methods_sound : forall w, base_ok opt_exe w ->
+  forall p, In p (backend_scripts ++ link_scripts ++ [ f_create_time; f_is_running ]) ->
+  forall s, s_cache s = false -> allowed (fst (run w p s)) (gone w (snd (run w p s))).
+Proof. exact kthread_methods_sound. Qed.
+Print Assumptions C03_kthread_methods_sound.
+
+(* zombie (exe and cwd links report ENOENT): every query except exe() and cwd() *)
+Theorem C03_zombie_methods_sound : forall w, base_ok opt_links w ->
+  forall p, In p (backend_scripts ++ [ f_create_time; f_is_running ]) ->
+  forall s, s_cache s = false -> allowed (fst (run w p s)) (gone w (snd (run w p s))).
+Proof. exact zombie_methods_sound. Qed.
+Print Assumptions C03_zombie_methods_sound.
+
+(* once the process is gone every OS-consulting query raises NoSuchProcess with the object's pid *)
+Theorem C03_gone_sticky : forall w, base_ok opt_links w -> forall p, In p consulting_scripts ->
+  forall s, s_cache s = false -> gone w s = true -> fst (run w p s) = RExc (XNSP Self).
+Proof. exact gone_sticky. Qed.
+Print Assumptions C03_gone_sticky.
+
+(* ppid() (and as_dict() including it): psutil errors only -- but see C03_ppid_refuted.
+   Full statement that is FALSE of the code: allowed (fst (run w f_ppid s)) (gone w (snd (run w f_ppid s))). *)
+Theorem C03_ppid_partial : forall w, base_ok opt_links w ->
+  forall s, s_cache s = false -> allowed_weak (fst (run w f_ppid s)).
+Proof. exact ppid_partial. Qed.
+Print Assumptions C03_ppid_partial.
+Theorem C03_as_dict_ppid_partial : forall w, base_ok opt_race w ->
+  forall s, s_cache s = false -> allowed_weak (fst (run w as_dict_all_ppid s)).
+Proof. exact as_dict_ppid_partial. Qed.
+Print Assumptions C03_as_dict_ppid_partial.
+
+(* parent() / parents(): no bare error escapes (errors may carry the parent's pid) *)
+Theorem C03_parent_tree_guarded : forallb (tree_guarded opt_race) [ f_parent; f_parents ] = true.
+Proof. exact tree_table. Qed.
+Print Assumptions C03_parent_tree_guarded.
+
+(* the harness's worlds (all four base kinds, every fault schedule) are worlds of the theorems *)
+Theorem C03_worlds_in_fault_model : forall y v d ln gu,
+  base_ok opt_none (mk_world y 0 v d ln gu) /\ base_ok opt_exe (mk_world y 1 v d ln gu) /\
+  base_ok opt_links (mk_world y 2 v d ln gu) /\ base_ok opt_race (mk_world y 3 v d ln gu).
+Proof. exact base_ok_worlds. Qed.
+Print Assumptions C03_worlds_in_fault_model.
+
+(* ---- defects: the faithful scripts break the property on single-fault schedules *)
+Theorem C03_exe_kthread_refuted :
+  fst (run (mk_world y0 1 None [1%nat] true false) f_exe st0) = RExc XFnf.
+Proof. exact exe_kthread_refuted. Qed.
+Print Assumptions C03_exe_kthread_refuted.
+Theorem C03_children_refuted :
+  fst (run (mk_world y0 0 None [5%nat] true false) f_children st0) = RExc XPerm.
+Proof. exact children_refuted. Qed.
+Print Assumptions C03_children_refuted.
+Theorem C03_ppid_refuted :
+  let w := mk_world y0 0 None [0%nat] true false in
+  fst (run w f_ppid st0) = RExc (XNSP Self) /\ gone w (snd (run w f_ppid st0)) = false.
+Proof. exact ppid_refuted. Qed.
+Print Assumptions C03_ppid_refuted.
+(* outside the property's quantifier (two refusals), recorded because cwd() is left out of the zombie theorem *)
+Theorem C03_cwd_zombie_two_refusals_refuted :
+  fst (run (mk_world y0 2 None [1%nat; 2%nat] true false) i_cwd st0) = RExc XFnf.
+Proof. exact cwd_zombie_two_refusals_refuted. Qed.
+Print Assumptions C03_cwd_zombie_two_refusals_refuted.
